@@ -12,13 +12,14 @@ import (
 	"verif/world"
 )
 
-func init() { Sched["c19"] = c19 }
+func init() { Sched["c19"] = c19; Sched["c19_seq"] = c19Seq }
 
 type c19backend struct {
 	peer        erpc.Peer
 	call        string
 	push        string
 	ran         int
+	lastArg     string
 	seen        []string // metadata seen by the handler (sorted k=v)
 	status      *erpc.Status
 	closeDuring bool
@@ -37,6 +38,7 @@ func newC19backend(codecName string) *c19backend {
 	b.peer = world.NewPeer(codecName)
 	b.call = b.peer.RouteCallFunc(func(ctx erpc.CallCtx, arg *[]byte) ([]byte, *erpc.Status) {
 		b.ran++
+		b.lastArg = string(*arg)
 		b.seen = metaOf(ctx.VisitMeta)
 		ctx.SetMeta("rk", "rv")
 		ctx.AddMeta("dup", "1")
@@ -51,6 +53,7 @@ func newC19backend(codecName string) *c19backend {
 	})
 	b.push = b.peer.RoutePushFunc(func(ctx erpc.PushCtx, arg *[]byte) *erpc.Status {
 		b.ran++
+		b.lastArg = string(*arg)
 		b.seen = metaOf(ctx.VisitMeta)
 		return nil
 	})
@@ -212,5 +215,55 @@ func c19(p Params) func() {
 			}
 		}
 		vsched.Logf("%s", ctxt)
+	}
+}
+
+// c19Seq: a sequence of calls and pushes with bodies of different lengths (empty included) through one proxy;
+// every one must reach the backend, and come back, exactly as when sent directly (the proxy's pooled contexts
+// and buffers carry nothing from one forwarded message to the next).
+func c19Seq(p Params) func() {
+	depth := p.Int("depth", 3)
+	return func() {
+		begin()
+		ref := newC19backend("json")
+		refCli := world.NewPeer("json")
+		rcs, _, _ := world.Connect(refCli, ref.peer, nil)
+		be := newC19backend("json")
+		var toBackend erpc.Session
+		px := world.NewPeer("json", proxy.NewPlugin(func(*proxy.Label) proxy.Forwarder { return toBackend }))
+		toBackend, _, _ = world.Connect(px, be.peer, nil)
+		cli := world.NewPeer("json")
+		cs, _, _ := world.Connect(cli, px, nil)
+		bodies := []string{`"hello"`, ``, strings.Repeat("b", 300)}
+		hist := ""
+		for i := 0; i < depth; i++ {
+			k := vsched.Choose(2*len(bodies), "op")
+			body := bodies[k%len(bodies)]
+			if k < len(bodies) {
+				hist += fmt.Sprintf("call(%d bytes) ", len(body))
+				got := doCall(cs, be.call, []byte(body), 's', nil)
+				want := doCall(rcs, ref.call, []byte(body), 's', nil)
+				if got.stat != want.stat || got.body != want.body {
+					vsched.Failf("proxied call #%d returned %s %q, the direct call %s %q | %s", i, got.stat, got.body, want.stat, want.body, hist)
+				}
+				if be.lastArg != body {
+					vsched.Failf("the backend received %q for a proxied call whose body is %q | %s", be.lastArg, body, hist)
+				}
+			} else {
+				hist += fmt.Sprintf("push(%d bytes) ", len(body))
+				before := be.ran
+				if st := cs.Push(be.push, []byte(body), erpc.WithBodyCodec('s')); !st.OK() {
+					vsched.Failf("push to the proxy failed: %s | %s", world.StatStr(st), hist)
+				}
+				vsched.Quiesce()
+				if be.ran != before+1 {
+					vsched.Failf("proxied push #%d was forwarded %d times | %s", i, be.ran-before, hist)
+				}
+				if be.lastArg != body {
+					vsched.Failf("the backend received %q for a proxied push whose body is %q | %s", be.lastArg, body, hist)
+				}
+			}
+		}
+		vsched.Logf("%s", hist)
 	}
 }
